@@ -84,7 +84,7 @@ def run_part(report, prop, key, u, opts, tier):
         job_listings = [{"id": n, "text": render.listing_text(L)} for n, L in enumerate(lsts)]
     # the cross product is run completely unless it exceeds the tier's budget; then every rule is run on a
     # seeded sample of the listings (the evidence says so and `exhaustive` is not claimed)
-    budget = opts.get("max_cases", 400000 if tier == "quick" else 1500000)
+    budget = opts.get("max_cases", 400000 if tier == "quick" else 1000000)
     pairs = "all"
     if len(job_rules) * len(job_listings) > budget:
         import random
